@@ -433,12 +433,22 @@ func c02(args []string) error {
 					}
 					tc, err := signers[0].Auth.CreateTimeoutCert(3, tms)
 					if err != nil {
-						return err
-					}
-					abs := hx.AbsTC{View: 3, Sig: w.GoodSig(hx.IDs(tc.Signature().Participants()), hx.ViewMsg(3))}
-					for _, v := range verifiers {
-						ok, pan, et := verdict(func() error { return v.auth.VerifyTimeoutCert(tc) })
-						o.emit(obj{"kind": "tc", "n": n, "scheme": scheme, "cache": v.cache, "mut": "honest-created", "honest": true, "tc": abs, "ok": ok, "panic": pan, "err": et})
+						// a quorum of honest timeouts that cannot be made into a certificate is an observation (completeness), not a
+						// reason to stop
+						var ids []int
+						for _, tm := range tms {
+							ids = append(ids, int(tm.ID))
+						}
+						abs := hx.AbsTC{View: 3, Sig: w.GoodSig(ids, hx.ViewMsg(3))}
+						for _, v := range verifiers {
+							o.emit(obj{"kind": "tc", "n": n, "scheme": scheme, "cache": v.cache, "mut": "honest-created", "honest": true, "tc": abs, "ok": false, "panic": "", "err": "CreateTimeoutCert: " + err.Error()})
+						}
+					} else {
+						abs := hx.AbsTC{View: 3, Sig: w.GoodSig(hx.IDs(tc.Signature().Participants()), hx.ViewMsg(3))}
+						for _, v := range verifiers {
+							ok, pan, et := verdict(func() error { return v.auth.VerifyTimeoutCert(tc) })
+							o.emit(obj{"kind": "tc", "n": n, "scheme": scheme, "cache": v.cache, "mut": "honest-created", "honest": true, "tc": abs, "ok": ok, "panic": pan, "err": et})
+						}
 					}
 				}
 				for _, sc := range sigMutations(w, rng, n, q, mV(3), mV(4)) {
